@@ -971,7 +971,13 @@ class Audit:
             # rewritten as `stack[sp]` at the same ordinal is a different site
             cur = _shape(_norm_desc(self._describe(B, cx, s)))
             if cur not in {_shape(_norm_desc(j["desc"])), _shape(_norm_desc(j.get("desc_inl") or j["desc"]))}:
-                j = None
+                # a different shape is a different site when the arithmetic is the same and a constant in it changed
+                # (`sp - 1` → `sp - 0`); a value spelled another way (a loop item become a counter, a flag become an
+                # Option's payload) keeps the entry
+                sig = lambda d_: (re.findall(r"(?:Add|Sub|Mul|Div|Rem|Shl|Shr)(?:WithOverflow)?", d_), re.findall(r"(?:(?<![\w.])(\d+) )?(?:Add|Sub|Mul|Div|Rem|Shl|Shr)(?:WithOverflow)?(?: (\d+)(?![\w.]))?", d_))
+                o_new = sig(_norm_desc(self._describe(B, cx, s)))
+                if o_new[0] and any(o_new[0] == sig(_norm_desc(d_))[0] and o_new[1] != sig(_norm_desc(d_))[1] for d_ in (j["desc"], j.get("desc_inl") or j["desc"])):
+                    j = None
         if j:
             self.used_justifications.add(s.key)
             if not hasattr(self, "descs"):
